@@ -351,11 +351,16 @@ impl TestRunner {
         match opcode {
             0x20 => {
                 // jsr
+                // The call is over when the program counter is behind it *and* the stack is where it was: a subroutine that
+                // calls itself from this very place passes the same address at a deeper level first
                 let wait_until_pc = self.cpu.get_program_counter() + 3;
+                let wait_until_sp = self.cpu.get_stack_pointer();
                 loop {
                     let result = self.execute_instruction()?;
 
-                    if self.cpu.get_program_counter() == wait_until_pc {
+                    if self.cpu.get_program_counter() == wait_until_pc
+                        && self.cpu.get_stack_pointer() == wait_until_sp
+                    {
                         return Ok(result);
                     }
 
@@ -382,9 +387,13 @@ impl TestRunner {
         let sp_hi =
             self.ram.read().unwrap().ram[256 + self.cpu.get_stack_pointer() as usize + 2] as usize;
         let will_return_to = 1 + sp_lo + 256 * sp_hi;
+        // (with the return address popped; see step_over for why the stack is looked at as well)
+        let sp_after_return = self.cpu.get_stack_pointer().wrapping_add(2);
 
         loop {
-            if self.cpu.get_program_counter() == will_return_to as u16 {
+            if self.cpu.get_program_counter() == will_return_to as u16
+                && self.cpu.get_stack_pointer() == sp_after_return
+            {
                 return Ok(ExecuteResult::Running);
             }
 
